@@ -48,6 +48,8 @@ structure TW where
   evq : List String := []
   /-- number of client sockets / tokens made so far -/
   made : Nat := 0
+  /-- memory of every channel (default 5 MiB) -/
+  chanMem : Nat := 5 * 1024 * 1024
 
 structure TWorld where
   w : Option TW := none
@@ -74,6 +76,11 @@ def defaultChannels : List ChanCfg :=
 
 /-- `RenetServer::new(ConnectionConfig::default())` -/
 def defaultServer : Server := Server.new 60000 defaultChannels defaultChannels
+
+/-- `ConnectionConfig::default()` with every channel's `max_memory_usage_bytes` set to `mem` (`t-new … <nslots> <chanmem>`) -/
+def serverFor (mem : Nat) : Server :=
+  let chans := defaultChannels.map fun c => { c with maxMem := mem }
+  Server.new 60000 chans chans
 
 /-! ### parsing (the `num!` macro of tp.rs: decimal digits, range of the Rust type) -/
 def pNat (s : String) (bound : Nat) : Option Nat :=
@@ -176,7 +183,7 @@ def makeClient (tw : TW) (k : Nat) (id : Nat) : Res Empty (Option TW) :=
       | .panic m => .panic m
       | .err _ => pure none
       | .ok nc =>
-        let cl : Cl := { id, g := { netcode := nc, renet := defaultServer.newClient }, addr := clientSock n, inbox := #[] }
+        let cl : Cl := { id, g := { netcode := nc, renet := (serverFor tw.chanMem).newClient }, addr := clientSock n, inbox := #[] }
         let tw := setSlot tw k { slot with client := some cl }
         pure (some { tw with made := n + 1, ids := if tw.ids.contains id then tw.ids else tw.ids ++ [id] })
 
@@ -275,12 +282,12 @@ def getCl (tw : TW) (k : Nat) : Option (Slot × Cl) :=
 
 def setCl (tw : TW) (k : Nat) (s : Slot) (c : Cl) : TW := setSlot tw k { s with client := some c }
 
-def tNew (n maxc : Nat) (timeoutS : Int) (expireS nslots : Nat) : Res Empty (Option TW) := do
-  if n > nslots ∨ nslots = 0 ∨ nslots > 16 ∨ maxc = 0 ∨ maxc > 64 then return none
+def tNew (n maxc : Nat) (timeoutS : Int) (expireS nslots : Nat) (chanMem : Nat := 5 * 1024 * 1024) : Res Empty (Option TW) := do
+  if n > nslots ∨ nslots = 0 ∨ nslots > 16 ∨ maxc = 0 ∨ maxc > 64 ∨ chanMem < 1000 then return none
   let slots : Array Slot := ((List.range nslots).map fun k => ({ front := frontAddr k, back := backAddr k } : Slot)).toArray
   let ns ← NetcodeServer.new 0 maxc PROTOCOL_ID (slots.toList.map (·.front)) true privateKey challengeKey
-  let tw : TW := { g := { netcode := ns, renet := defaultServer }, serverAddr := serverSock, key := privateKey,
-                   timeoutS, expireS, slots }
+  let tw : TW := { g := { netcode := ns, renet := serverFor chanMem }, serverAddr := serverSock, key := privateKey,
+                   timeoutS, expireS, slots, chanMem }
   let rec mk (tw : TW) : List Nat → Res Empty (Option TW)
     | [] => pure (some tw)
     | k :: rest => do
@@ -337,19 +344,22 @@ def stepOp (w : TWorld) (toks : List String) : Option (TWorld × String) :=
     | some n => if (dir = "s2c" || dir = "c2s") && 71 ≤ n && n < 16391 then (w, mxStep dir n) else (w, "bad-op")
     | none => (w, "bad-op")
   | "t-new" :: args => some <|
-    let parsed : Option (Nat × Nat × Int × Nat × Nat) :=
+    let parsed : Option (Nat × Nat × Int × Nat × Nat × Nat) :=
       match args with
       | [n, maxc, t, e] => do
         let n ← pU64 n; let maxc ← pU64 maxc; let t ← pI32 t; let e ← pU64 e
-        pure (n, maxc, t, e, n)
+        pure (n, maxc, t, e, n, 5 * 1024 * 1024)
       | [n, maxc, t, e, ns] => do
         let n ← pU64 n; let maxc ← pU64 maxc; let t ← pI32 t; let e ← pU64 e; let ns ← pU64 ns
-        pure (n, maxc, t, e, ns)
+        pure (n, maxc, t, e, ns, 5 * 1024 * 1024)
+      | [n, maxc, t, e, ns, mem] => do
+        let n ← pU64 n; let maxc ← pU64 maxc; let t ← pI32 t; let e ← pU64 e; let ns ← pU64 ns; let mem ← pU64 mem
+        pure (n, maxc, t, e, ns, mem)
       | _ => none
     match parsed with
     | none => (w, "bad-op")
-    | some (n, maxc, t, e, ns) =>
-      match tNew n maxc t e ns with
+    | some (n, maxc, t, e, ns, mem) =>
+      match tNew n maxc t e ns mem with
       | .ok (some tw) => ({ w with w := some tw }, "ok")
       | .ok none => (w, "bad-op")
       | .panic _ => die w
@@ -536,6 +546,8 @@ def stepOp (w : TWorld) (toks : List String) : Option (TWorld × String) :=
     match pU64 id with
     | some id => withW w fun tw => pure ({ tw with g := { tw.g with renet := tw.g.renet.disconnect id } }, "ok")
     | none => (w, "bad-op")
+  -- RenetServer::disconnect_all (the message layer's; the transport pushes it down at its next update)
+  | ["t-rdiscall"] => some <| withW w fun tw => pure ({ tw with g := { tw.g with renet := tw.g.renet.disconnectAll } }, "ok")
   | ["t-sdiscall"] => some <| withW w fun tw => do
       let (g, out) ← serverDisconnectAll aead tw.g
       pure (routeDown (collectEvents { tw with g }) out, "ok")
